@@ -999,16 +999,6 @@ func (g *wGen) unstartedHandlers() []*wHandler {
 // (so that its goroutine has taken its middleware snapshot before the program goes on registering)
 func (g *wGen) start() {
 	waiting := g.unstartedHandlers()
-	if len(waiting) > 1 {
-		// Go starts the waiting handlers in map order; which of them keeps the publisher decorators of an
-		// attempt that failed in a SUBSCRIBER decorator is then not determined: no such failures here
-		for _, o := range g.decs {
-			if o.K == "addsubdec" && g.budget[o.ID] > 0 {
-				o.Fails -= g.budget[o.ID]
-				g.budget[o.ID] = 0
-			}
-		}
-	}
 	for len(waiting) > 0 {
 		f := g.nextFailing()
 		if f == nil {
